@@ -251,10 +251,16 @@ def fn_apply_mode(fn):
     return None
 
 
+LIB_INPUTS = ('memory_input', 'buffer_input', 'string_input', 'read_input', 'mmap_input', 'file_input', 'argv_input', 'istream_input', 'cstream_input', 'input_with_depth', 'internal::input_with_depth',
+              'buffer_input_t')     # buffer_input_t: alias of buffer_input in the repository's tests
+
+
 def is_input_type(t):
+    """a parse input of the library taken by non-const reference (inputs defined by tests and examples - token inputs ... - are user code)"""
     if not t.endswith('&') or t.startswith('const '): return False
-    if 'action_input' in t: return False
-    return ('_input<' in t or 'input_with_depth<' in t) and t.startswith('tao::pegtl::')
+    if 'action_input' in t or not t.startswith('tao::pegtl::'): return False
+    name = t[len('tao::pegtl::'):].split('<')[0].replace('&', '').strip()
+    return name in LIB_INPUTS
 
 
 def is_match_root(fn):
